@@ -96,6 +96,7 @@ SAN_PATTERNS = [
     (r"error: memory leaked", "miri-leak"),
     (r"error: (deadlock|unsupported operation|the evaluated program leaked memory).*", "miri-other"),
     (r"WRITE-TRAP addr=(0x[0-9a-f]+) in_arena=1", "write-trap"),
+    (r"memory allocation of \d+ bytes failed", "alloc-abort"),
     (r"free\(\): double free|malloc\(\): |corrupted|munmap_chunk\(\)|free\(\): invalid", "glibc-heap"),
 ]
 
@@ -204,10 +205,20 @@ def run_check(prop, tier, seed):
     modes = sorted(set((j["mode"], j.get("bin", "lruverif")) for j in jobs))
     os.makedirs(EVID, exist_ok=True)
     os.makedirs(REPLAYS, exist_ok=True)
+    compile_violations = []
     for m, b in modes:
         ok, msg = build(m, b)
         if not ok:
             log(msg)
+            cv = [j for j in jobs if j["mode"] == m and j.get("bin", "lruverif") == b and j.get("compile_verdict")]
+            if cv and len(cv) == len([j for j in jobs if j["mode"] == m and j.get("bin", "lruverif") == b]) and any((mm, bb) != (m, b) for mm, bb in modes):
+                # an exercise program whose only purpose is to USE the API in a way the property promises must compile:
+                # if the rest of the harness builds and this does not, the promise is broken at compile time
+                errs = [l for l in msg.splitlines() if l.startswith("error")][:3]
+                compile_violations.append({"property": prop, "signature": "exercise-does-not-compile", "kind": "compile", "mode": m, "argv": [b],
+                                           "message": "the exercise program %s no longer compiles against this tree: %s" % (b, " | ".join(errs)[:600]), "compiler_output": msg[-3000:]})
+                jobs = [j for j in jobs if not (j["mode"] == m and j.get("bin", "lruverif") == b)]
+                continue
             return finish(prop, tier, seed, t0, None, [], [], "build failed for mode %s" % m, {})
     tasks = []
     for ji, j in enumerate(jobs):
@@ -217,16 +228,16 @@ def run_check(prop, tier, seed):
     tasks.sort(key=lambda t: {"miri": 0, "tsan": 1, "asan": 2}.get(t[0]["mode"], 3))
     with ThreadPoolExecutor(max_workers=NCPU) as ex:
         results = list(ex.map(lambda t: run_shard(t[0], t[1], t[2], tier), tasks))
-    return merge(prop, tier, seed, t0, results)
+    return merge(prop, tier, seed, t0, results, compile_violations)
 
 
-def merge(prop, tier, seed, t0, results):
+def merge(prop, tier, seed, t0, results, compile_violations=()):
     known = load_known()
     evals = 0
     distinct = set()
     counters, maxima, per_mode = {}, {}, {}
     samples = []
-    violations, known_hits, other = [], {}, {}
+    violations, known_hits, other = list(compile_violations), {}, {}
     inconclusive = []
     gate_broken = 0
     san_reports = 0
@@ -459,7 +470,7 @@ def main():
     cmd = sys.argv[1]
     if cmd == "setup":
         rc = 0
-        for m, b in [("native", "lruverif"), ("wrap", "lruverif"), ("asan", "lruverif"), ("miri", "lruverif"), ("debug0", "lruverif_ms"), ("debug0", "lruverif_tot"), ("native", "lruverif_tot")]:
+        for m, b in [("native", "lruverif"), ("wrap", "lruverif"), ("asan", "lruverif"), ("miri", "lruverif"), ("debug0", "lruverif_ms"), ("debug0", "lruverif_tot"), ("native", "lruverif_tot"), ("native", "lruverif_c18")]:
             ok, msg = build(m, b)
             if not ok:
                 log(msg)
